@@ -1,5 +1,5 @@
 (* Props/C09.v — property C09: virtual easy samples behave like materialised extreme scores. Statements only. *)
-From SA Require Import Model.Symmetry Model.Auc Model.Threshold Proofs.SymmetryFacts Proofs.MaterialiseAucFacts Proofs.MaterialiseThrFacts.
+From SA Require Import Model.Symmetry Model.Auc Model.Threshold Proofs.SymmetryFacts Proofs.MaterialiseAucFacts Proofs.MaterialiseThrFacts Proofs.MaterialisePoolFacts.
 Open Scope Q_scope.
 
 (* Confusion matrices: for every Scores object with k, m >= 0 easy samples, every configuration and
@@ -65,9 +65,25 @@ Theorem C09_materialise_sorted : forall (s : scores) (ppos pneg : Q),
 Proof. exact materialise_is_mat_sorted. Qed.
 Print Assumptions C09_materialise_sorted.
 
-(* _partial: equality of PARTIAL AUC, and of the thresholds for topr / tonr (whose sample sequence interleaves
-   both classes, with materialised samples at both ends), is not a theorem here; it is checked on the
-   implementation on every run (harness/props/C09.py: a few ulp / 1e-12). *)
+(* Thresholds of the two pooled metrics (topr, tonr), _partial in the same sense: whenever the threshold returned
+   for the materialised object lies strictly inside the range of ALL scored samples, the object with virtual easy
+   samples returns the same threshold.  [beyond_all]: the materialised values lie strictly beyond all scored samples,
+   each on its own side; at least one easy sample overall (with none the two calls are the same computation). *)
+Theorem C09_thresholds_pooled_metrics_partial :
+  forall (succ pred : Q -> Q), (forall x, x < succ x) -> (forall x, pred x < x) ->
+  forall (s : scores) (ppos pneg : Q) (mt : metric6) (r t' : Q),
+  In mt [MTopr; MTonr] ->
+  let l := isort (neg s ++ pos s) in
+  (1 <= len l)%Z -> (0 <= easy_pos s)%Z -> (0 <= easy_neg s)%Z -> (1 <= easy_pos s + easy_neg s)%Z ->
+  beyond_all s ppos pneg ->
+  threshold_at succ pred mt (mat_sorted s ppos pneg) r Linear = Ret t' ->
+  nthZ l 0 < t' -> t' < nthZ l (len l - 1) ->
+  exists t, threshold_at succ pred mt s r Linear = Ret t /\ t == t'.
+Proof. exact mat_thresholds_pooled_metrics. Qed.
+Print Assumptions C09_thresholds_pooled_metrics_partial.
+
+(* _partial: equality of PARTIAL AUC is not a theorem here; it is checked on the implementation on every run
+   (harness/props/C09.py: 1e-12). *)
 
 (* the hypotheses are satisfiable: binary64 neighbours, 2 easy positives, 1 easy negative; all four metrics at
    targets whose materialised threshold lies inside the scored range *)
@@ -76,13 +92,15 @@ Example C09_thresholds_example :
   wf s /\ beyond_own s (9#1) (-5#1) /\
   match threshold_at succ64 pred64 MFnr (materialise s (9#1) (-5#1)) (3#10) Linear with Ret a => Qeqb a (5#2) = true | _ => False end /\
   match threshold_at succ64 pred64 MFnr s (3#10) Linear with Ret a => Qeqb a (5#2) = true | _ => False end /\
-  (forall mt, In mt [MTpr; MFnr; MTnr; MFpr] ->
+  beyond_all s (9#1) (-5#1) /\
+  (forall mt, In mt [MTpr; MFnr; MTnr; MFpr; MTopr; MTonr] ->
      match threshold_at succ64 pred64 mt (materialise s (9#1) (-5#1)) (1#2) Linear, threshold_at succ64 pred64 mt s (1#2) Linear with
      | Ret a, Ret b => Qeqb a b = true | _, _ => False end).
 Proof.
   split; [split; repeat constructor; cbn; discriminate|].
   split; [split; repeat constructor; reflexivity|].
   split; [vm_compute; reflexivity|]. split; [vm_compute; reflexivity|].
+  split; [split; [|split]; [repeat constructor; reflexivity | repeat constructor; reflexivity | reflexivity]|].
   intros mt H. cbn [In] in H. repeat (destruct H as [<-|H]; [vm_compute; reflexivity|]). destruct H.
 Qed.
 
